@@ -131,6 +131,22 @@ def _is_manager_list(call: ast.Call) -> bool:
     return isinstance(call.func, ast.Attribute) and call.func.attr == "list" and "manager" in src(call.func.value).lower()
 
 
+def _multi_proc_field(prog, tp: Cls) -> str:
+    """the constructor parameter that selects the multi-process mode is stored in this field (a bool parameter whose name or the
+    field's tests guard the Manager creation)"""
+    init = prog.method(tp, "__init__")
+    for n in walk_own(init.node):
+        if isinstance(n, ast.Assign) and isinstance(n.value, ast.Name) and n.value.id in init.params:
+            d = dotted(n.targets[0])
+            if d and len(d) == 2 and d[0] == init.self_name:
+                # the parameter guards the Manager() creation in the constructor
+                for m in walk_own(init.node):
+                    if isinstance(m, ast.If) and src(m.test) in (n.value.id, f"{init.self_name}.{d[1]}") \
+                            and any("Manager" in src(c.func) for c in calls_in(m)):
+                        return d[1]
+    raise AnalysisError("TmpPool.__init__: the field holding the multi-process switch was not found")
+
+
 def _registry_field(prog, tp: Cls) -> str:
     ln = prog.method(tp, "__len__")
     for r in returns_of(ln.node):
@@ -196,15 +212,64 @@ def r3_covers(prog, rep: Report, tp: Cls, fp: Cls):
                        "about the file and leaves it behind")
     en = prog.method(tp, "__enter__")
     rep.fn(en)
-    ok = False
+    # per mode (multi_proc / single process): what does __enter__ make of the registry?
+    #   multi_proc : it must become a manager list (children append to it) that starts with the paths already registered
+    #   single     : it must not be replaced at all, or only by a container that starts with the registered paths
+    # An assignment under `if self.<multi_proc>` counts for that arm only; a conditional expression is split by its test.
+    mpf = _multi_proc_field(prog, tp)
+    old_reg = f"{en.self_name}.{reg}"
+    per_mode: Dict[bool, List[Tuple[ast.expr, int]]] = {True: [], False: []}
     for n in walk_own(en.node):
-        if isinstance(n, ast.If) and "multi_proc" in src(n.test) and not isinstance(n.test, ast.UnaryOp):
-            ok = any(isinstance(s, ast.Assign) and dotted(s.targets[0]) == (en.self_name, reg) and isinstance(s.value, ast.Call)
-                     and _is_manager_list(s.value) for s in n.body)
-    ok = ok and any(src(r.value) == en.self_name for r in returns_of(en.node))
-    rep.check("C20.R3", en, "enter-shares-registry", ok, "__enter__ makes the registry a manager list iff multi_proc and returns the pool",
-              "__enter__ does not make the registry a manager list for a multi_proc pool",
-              scenario="files created by child processes are appended to the child's private copy of the list and survive the context")
+        if not (isinstance(n, ast.Assign) and any(dotted(t) == (en.self_name, reg) for t in n.targets)):
+            continue
+        modes = {True, False}
+        ch, par = n, getattr(n, "_parent", None)
+        while par is not None and par is not en.node:
+            if isinstance(par, ast.If):
+                t = par.test
+                neg = isinstance(t, ast.UnaryOp) and isinstance(t.op, ast.Not)
+                if dotted(t.operand if neg else t) == (en.self_name, mpf):
+                    in_body = ch in par.body
+                    modes &= {in_body != neg}
+            ch, par = par, getattr(par, "_parent", None)
+        v = n.value
+        for m in modes:
+            vm = v
+            if isinstance(v, ast.IfExp):
+                t = v.test
+                neg = isinstance(t, ast.UnaryOp) and isinstance(t.op, ast.Not)
+                if dotted(t.operand if neg else t) == (en.self_name, mpf):
+                    vm = v.body if (m != neg) else v.orelse
+            per_mode[m].append((vm, n.lineno))
+
+    def carries(v) -> bool:
+        return isinstance(v, ast.Call) and len(v.args) == 1 and src(v.args[0]) in (old_reg, f"list({old_reg})")
+    problems = []
+    mp = per_mode[True]
+    if not mp:
+        problems.append((en.node.lineno, "multi_proc", "__enter__ does not make the registry a manager list for a multi_proc pool",
+                         "files created by child processes are appended to the child's private copy of the list and survive the context"))
+    for v, ln in mp:
+        if not (isinstance(v, ast.Call) and _is_manager_list(v)):
+            problems.append((ln, "multi_proc", f"for a multi_proc pool the registry becomes `{src(v)}`, not a manager list",
+                             "files created by child processes are appended to the child's private copy of the list and survive the context"))
+        elif not carries(v):
+            problems.append((ln, "multi_proc", f"`{src(v)}` replaces the registry without the paths already registered",
+                             "p = TmpPool(multi_proc=True); p.create(); with p: pass  -> the file is no longer listed and stays on disk"))
+    for v, ln in per_mode[False]:
+        if not carries(v):
+            problems.append((ln, "single", f"for a single-process pool __enter__ replaces the registry by `{src(v)}`, forgetting the paths "
+                                           "already registered",
+                             "p = TmpPool(); p.create(); with p: pass  -> the file is no longer listed and stays on disk"))
+    returns_self = any(src(r.value) == en.self_name for r in returns_of(en.node) if r.value is not None)
+    if not returns_self:
+        problems.append((en.node.lineno, "result", "__enter__ does not return the pool", "`with TmpPool() as pool` binds None"))
+    if problems:
+        for ln, mode, why, scen in problems:
+            rep.viol("C20.R3", en, f"enter-registry:{mode}", why, scenario=scen, line=ln)
+    else:
+        rep.ok("C20.R3", en, "enter-registry", "__enter__ makes the registry a manager list seeded with the registered paths iff "
+               "multi_proc, leaves it alone otherwise, and returns the pool")
     rmv = prog.method(tp, "remove")
     rep.fn(rmv)
     p = rmv.params[1]
